@@ -186,6 +186,14 @@ def evalE (cfg : Cfg W) : Nat → Expr → Env → W → Except String (Val × W
         | some v => .ok (v, w)
         | none => .error s!"unbound &{n}"
     | .un "&" a => evalE cfg fuel a env w
+    | .un "^" (.call (.id ty) [x]) => do
+      -- bitwise complement of an unsigned conversion: the width is the conversion's
+      let (v, w) ← evalE cfg fuel (.call (.id ty) [x]) env w
+      let bits : Option Nat := match ty with
+        | "uint64" | "uint" | "uintptr" => some 64 | "uint32" => some 32 | "uint16" => some 16 | "uint8" | "byte" => some 8 | _ => none
+      match v, bits with
+      | .int i, some n => .ok (.int ((2 : Int) ^ n - 1 - i), w)
+      | _, _ => .error "complement of a non-unsigned conversion"
     | .un op _ => .error s!"unop {op}"
     | .bin "&&" a b => do
       let (va, w) ← evalE cfg fuel a env w
